@@ -4,4 +4,12 @@ set -e
 cd /verif
 mkdir -p .work evidence/replay
 verus --version >/dev/null
+# pre-build the replay crate (bounded stand-ins / witness search) against /repo so that the first check finds it warm
+python3 - <<'PY'
+import sys
+sys.path.insert(0, "/verif/replay")
+import replay_driver
+b, err = replay_driver._build("/verif", "/repo")
+print("replay crate:", b or ("BUILD FAILED: " + err))
+PY
 echo "setup ok"
